@@ -98,8 +98,9 @@ def cases(tier, seed):
             out.append(("x", b))
     nex = len(out)
     leaves = LEAVES + [('use', 'x'), ('use', 'y'), ('decl', 'x'), ('declu', 'y', 'x'), ('declu', 'x', 'y'), ('declu', 'x', 'x'), ('declu', 'y', 'y'), ('use', 'z'), ('goto', 'return')]
+    leaves_arr = leaves + [('declarr', 'e', ()), ('declarr', 'f', ('x',)), ('declarr', 'e', ('x', 'y')), ('declarr', 'g', ())]
     for i in range(6000 if tier == "quick" else 150000):
-        out.append(("r", G.random_body(rng, 3, rng.randint(1, 30 if i % 5 == 0 else 9), leaves, 0.12, 0.08)))
+        out.append(("r", G.random_body(rng, 3, rng.randint(1, 30 if i % 5 == 0 else 9), leaves if i % 3 else leaves_arr, 0.12, 0.08)))
     for i in range(6000 if tier == "quick" else 150000):
         out.append(("s", G.smart_body(rng, 3, rng.randint(2, 14), ['r', 'p'], ['a', 'b', 'c', 'return'])))
     # brace-less branches (rejected by the syntax analysis, E840, unless the branch is a goto) and jumps
